@@ -11,13 +11,13 @@ CHECKS = {}
 CHECKS["C15"] = {
     "runs": [
         R("./parser", {"fn": r"^ZZ_C15_P1_scan_n[1-4]$"}, {"fn": r"^ZZ_C15_P1_scan_n[1-6]$"}),
-        R("./parser", {"fn": r"^ZZ_C15_(P2_parse_n[12]|P4a_scan_translation_n[23]|P3_P4b_compose)$"},
-                      {"fn": r"^ZZ_C15_(P2_parse_n[123]|P4a_scan_translation_n[234]|P3_P4b_compose)$"}),
+        R("./parser", {"fn": r"^ZZ_C15_(P2_parse_n[12]|P4a_scan_translation_n[23]|P3_P4b_compose|P4b_compose_sym_(first|second)_n[12])$"},
+                      {"fn": r"^ZZ_C15_(P2_parse_n[123]|P4a_scan_translation_n[234]|P3_P4b_compose|P4b_compose_sym_(first|second)_n[123])$", "wall_timeout": 7200}),
     ],
     "expect_asserts": [r"C15\.P1\.invariant-preserved", r"C15\.P1\.position-in-input", r"C15\.P2\.parse-no-panic", r"C15\.P2\.error-position-in-input", r"C15\.P4a\.line-shifted-by-prefix-lines", r"C15\.P3\.same-text-same-tree", r"C15\.P4b\.same-subtrees-with-shifted-positions"],
     "bounds": {
-        "quick": {"scan step: symbolic suffix runes": 4, "prefix shapes": 4, "unseen earlier lines": "symbolic 0..2^30", "ParseSrc totality and error position": "all sources of <= 2 symbolic runes", "scanner translation lemma": "5 prefixes x 2..3 symbolic runes", "parser compositionality": "all ordered pairs of 31 snippets"},
-        "thorough": {"scan step: symbolic suffix runes": 6, "prefix shapes": 4, "unseen earlier lines": "symbolic 0..2^30", "ParseSrc totality": "<= 3 runes", "scanner translation lemma": "up to 4 runes"},
+        "quick": {"scan step: symbolic suffix runes": 4, "prefix shapes": 4, "unseen earlier lines": "symbolic 0..2^30", "ParseSrc totality and error position": "all sources of <= 2 symbolic runes", "scanner translation lemma": "5 prefixes x 2..3 symbolic runes", "parser compositionality": "all ordered pairs of 43 snippets; every text of <= 2 symbolic ASCII runes before or after 2 fixed texts"},
+        "thorough": {"scan step: symbolic suffix runes": 6, "prefix shapes": 4, "unseen earlier lines": "symbolic 0..2^30", "ParseSrc totality": "<= 3 runes", "scanner translation lemma": "up to 4 runes", "parser compositionality": "43 x 43 snippets; every text of <= 3 symbolic ASCII runes before or after 2 fixed texts"},
     },
     "stubs": ["unicode.IsLetter on symbolic runes: ASCII formula (runes assumed 0..0x7f)", "fmt.Errorf: native formatting, symbolic operands print as <symbolic>"],
     "assumptions": ["symbolic runes are ASCII (0..0x7f); non-ASCII runes only as concrete members", "go/ssa v0.29.0 SSA of /repo is faithful to the compiled code", "z3 5.1.0 answers are sound"],
@@ -74,11 +74,11 @@ CHECKS["C05"] = {
     "corpus": True,
     "runs": [R("./vm", {"fn": r"^ZZ_C05_"})],
     "expect_asserts": [r"C05\.\+/int,int/value", r"C05\.</int,float/value", r"C05\.int64Value/value", r"C05\.string\+string/value", r"C05\.%/int,int/zero-divisor-is-error"],
-    "bounds": {"numeric payloads": "none: all 2^64 x 2^64 operand pairs per operator and class pair (int64/float64), decided per path by the solver",
+    "bounds": {"numeric payloads": "none: all operand pairs per operator and ordered class pair over int64, float64 and the host-only kinds int, int32, int16, int8, float32 (49 class pairs x 15 operators), decided per path by the solver",
                "strings": "symbolic ASCII strings of length 0..2; numbers in string concatenation from a concrete pool of 10", "repeat count": "-1..3",
                "tree depth": "single operator (step lemma) plus all depth-2 trees over + - * & | on int64"},
     "stubs": ["strconv/fmt formatting of concrete numbers: native", "int64Cache load at a symbolic index: closed form of the table computed from its actual contents (arithmetic progression check)"],
-    "assumptions": ["operands are int64, float64 or strings as the statement quantifies; other numeric kinds are outside this check",
+    "assumptions": ["operands are int64, float64, strings, or signed integer / float32 host values entering the tower by Go's conversion; unsigned kinds and bool operands are outside this check",
                     "float -> int conversions use the amd64 result for NaN/out-of-range values"],
     "outside": ["formatting of symbolic numbers", "strings longer than 2 symbolic bytes", "non-ASCII symbolic bytes"],
 }
@@ -222,7 +222,7 @@ CHECKS["C16"] = {
     "runs": [R("./vm", {"fn": r"^ZZ_C16_(sequential|go_args|pipeline_quick)$"}, {"fn": r"^ZZ_C16_(sequential|go_args|pipeline)$", "wall_timeout": 10000})],
     "expect_asserts": [r"C16\.fifo/order-and-values", r"C16\.closed/drained-receive-yields-nil", r"C16\.receive-stmt/ok-false-when-closed", r"C16\.go/arguments-before-callee-starts", r"C16\.pipeline/in-order", r"C16\.send-on-closed-is-error"],
     "bounds": {"quick": "sequential: buffered channels of capacity 3 over int64/interface elements, symbolic values; pipelines: 0..2 items, unbuffered / capacity 1, 0..1 relay stage, <= 3 context switches at channel operations (all schedules within that bound)",
-               "thorough": "0..3 items, capacity 0..2, <= 5 context switches"},
+               "thorough": "0..3 items, capacity 0..2, <= 4 context switches"},
     "stubs": ["channels, select, goroutines: engine coroutine model of Go's specified channel semantics; a switch can happen at every channel operation and goroutine start"],
     "assumptions": ["`y = <-ch` is the receive statement (leaves y untouched on a closed channel); receive expressions are used inside other expressions"],
     "outside": ["all schedules the Go runtime produces across GOMAXPROCS: the runtime scheduler and its channel implementation are not encoded (not applicable to the technique)"],
